@@ -1,6 +1,7 @@
 //! Native replay of solver counterexamples against the real crate (public API only unless built with the `verif` hooks).
 //! usage: verif_replay <file.json>  -> prints one JSON object with the observations; exit 0 always unless the input is malformed.
 mod rope;
+mod threads;
 mod tree;
 use rspack_sources::*;
 use serde_json::{json, Value};
@@ -130,6 +131,7 @@ fn one(v: &Value) -> Value {
     }
     "tree" => tree::observe(v),
     "rope" => rope::run(v),
+    "threads" => threads::run(v),
     _ => json!({"error": format!("unknown family {}", fam)}),
   }
 }
